@@ -67,6 +67,7 @@ var (
 	caseSeq  int
 	r1, r2   *announce.Receiver // long-lived: re-subscribing per case would race with subscription gossip
 	r3       *announce.Receiver // on host B like r2, with an allow filter
+	r4       *announce.Receiver // on host B, with address filtering on
 	snd      *p2psender.Sender
 )
 
@@ -95,6 +96,10 @@ func mesh(t *testing.T) {
 			meshErr = err.Error()
 			return
 		}
+		if r4, err = announce.NewReceiver(hosts[1], "", announce.WithTopic(topics[1]), announce.WithFilterIPs(true)); err != nil {
+			meshErr = err.Error()
+			return
+		}
 		if snd, err = p2psender.New(nil, "", p2psender.WithTopic(topics[2])); err != nil {
 			meshErr = err.Error()
 			return
@@ -117,7 +122,7 @@ func mesh(t *testing.T) {
 		if !(seen[0] && seen[1]) {
 			meshErr = "receivers never saw the publisher"
 		}
-		t.Cleanup(func() { r1.Close(); r2.Close(); r3.Close() })
+		t.Cleanup(func() { r1.Close(); r2.Close(); r3.Close(); r4.Close() })
 	})
 }
 
@@ -183,7 +188,16 @@ func runCase(t *testing.T) func(Case) pbt.Result {
 		want1, want2 := map[delivery]bool{}, map[delivery]bool{}
 		never1 := map[string]string{} // cid -> why R1 must not deliver it
 		seen := map[int]bool{}
+		withAddr := map[string]bool{} // CIDs every announcement of which carried the address list
+		for _, o := range c.Ops {
+			k := cidFor(caseNo, o.Cid).String()
+			if _, ok := withAddr[k]; !ok {
+				withAddr[k] = true
+			}
+			withAddr[k] = withAddr[k] && o.Addr
+		}
 		addr := multiaddr.StringCast("/ip4/8.8.8.8/tcp/4001")
+		nonPublic := []multiaddr.Multiaddr{multiaddr.StringCast("/ip4/10.1.2.3/tcp/4001"), multiaddr.StringCast("/ip4/127.0.0.1/tcp/4001"), multiaddr.StringCast("/ip4/0.0.0.0/tcp/4001")}
 		// R1 and R2 must be consuming while messages flow (the delivery slot holds one message)
 		sentinels := []cid.Cid{cidFor(caseNo, 1000), cidFor(caseNo, 1001)}
 		var got1, got2 []delivery
@@ -198,6 +212,32 @@ func runCase(t *testing.T) func(Case) pbt.Result {
 		flush := cidFor(caseNo, 1002)
 		var got3 []delivery
 		var ok3 bool
+		// R4 (address filtering on) sees every sender's sentinel: same window rule as R1 / R2
+		type addrDelivery struct {
+			Cid   string
+			Addrs []multiaddr.Multiaddr
+		}
+		var got4 []addrDelivery
+		done4 := make(chan struct{})
+		go func() {
+			defer close(done4)
+			ctx4, cancel4 := context.WithTimeout(context.Background(), 20*time.Second)
+			defer cancel4()
+			left := map[cid.Cid]bool{sentinels[0]: true, sentinels[1]: true}
+			for len(left) > 0 {
+				a, err := r4.Next(ctx4)
+				if err != nil {
+					return
+				}
+				if left[a.Cid] {
+					delete(left, a.Cid)
+					continue
+				}
+				if mine[a.Cid.String()] {
+					got4 = append(got4, addrDelivery{a.Cid.String(), a.Addrs})
+				}
+			}
+		}()
 		done3 := make(chan struct{})
 		go func() { defer close(done3); got3, ok3 = collect(r3, []cid.Cid{flush}, mine, 40*time.Second) }()
 		for i, o := range c.Ops {
@@ -205,7 +245,7 @@ func runCase(t *testing.T) func(Case) pbt.Result {
 			res.Classes = append(res.Classes, "op="+o.Kind)
 			var addrs []multiaddr.Multiaddr
 			if o.Addr {
-				addrs = []multiaddr.Multiaddr{addr}
+				addrs = []multiaddr.Multiaddr{nonPublic[i%3], addr, nonPublic[(i+1)%3]}
 			}
 			switch o.Kind {
 			case "pub", "dup":
@@ -263,6 +303,24 @@ func runCase(t *testing.T) func(Case) pbt.Result {
 			return pbt.Failf("flush: %v", err)
 		}
 		<-done3
+		<-done4
+		for _, d := range got4 {
+			for _, a := range d.Addrs {
+				for _, np := range nonPublic {
+					if a.Equal(np) {
+						res.Fail = fmt.Sprintf("R4 (address filtering on) delivered %s with the non-public address %s; ops %+v", d.Cid, a, c.Ops)
+						return res
+					}
+				}
+			}
+			if withAddr[d.Cid] && (len(d.Addrs) != 1 || !d.Addrs[0].Equal(addr)) {
+				res.Fail = fmt.Sprintf("R4 (address filtering on) delivered %s with addresses %v, want exactly the public one %s", d.Cid, d.Addrs, addr)
+				return res
+			}
+			if withAddr[d.Cid] {
+				res.Classes = append(res.Classes, "r4:filtered-delivery")
+			}
+		}
 		res.NonTrivial = len(never1) > 0 || len(c.Ops) >= 3
 		check := func(name string, got []delivery, want map[delivery]bool, never map[string]string) string {
 			cnt := map[string]int{}
@@ -359,7 +417,7 @@ func wantFor(want map[delivery]bool, c string) []peer.ID {
 
 func TestC09_Pubsub(t *testing.T) {
 	pbt.Run(t, pbt.Config{Prop: "C09", Unit: "TestC09_Pubsub",
-		Rule: "three real libp2p hosts on loopback in one gossipsub mesh (A: receiver R1 with WithResend, B: plain receiver R2 and receiver R3 whose allow filter rejects host A and two of the six original publishers, C: p2psender); 1..6 operations: C publishes a new CID, a direct announcement handed to A's receiver for a drawn original publisher (re-published by A), a re-publication put on the topic by host A itself, a repeated CID; a sentinel message from C closes the observation window (no timeout decides non-delivery); oracle: every delivered announcement carries the announced CID once, direct and re-published announcements are attributed to the original publisher (never the relay), the receiver on A never delivers A's own re-publication; R3 delivers only announcements whose original publisher its filter accepts, and delivers every CID that R2 (same host, same message order) delivered for an accepted publisher, in particular those relayed by the rejected host A. Messages that did not arrive before the sentinel are counted as inconclusive, never reported. Non-trivial: the case contains a self re-publication or >= 3 operations and nothing was inconclusive; distinct by case.",
+		Rule: "three real libp2p hosts on loopback in one gossipsub mesh (A: receiver R1 with WithResend, B: plain receiver R2, receiver R3 whose allow filter rejects host A and two of the six original publishers, and receiver R4 with address filtering, C: p2psender); 1..6 operations: C publishes a new CID, a direct announcement handed to A's receiver for a drawn original publisher (re-published by A), a re-publication put on the topic by host A itself, a repeated CID; a sentinel message from C closes the observation window (no timeout decides non-delivery); oracle: every delivered announcement carries the announced CID once, direct and re-published announcements are attributed to the original publisher (never the relay), the receiver on A never delivers A's own re-publication; R3 delivers only announcements whose original publisher its filter accepts, and delivers every CID that R2 (same host, same message order) delivered for an accepted publisher, in particular those relayed by the rejected host A; R4 (address filtering on) never delivers a private, loopback or unspecified address, whether the announcement came directly from its publisher or was re-published, and keeps the public one. Messages that did not arrive before the sentinel are counted as inconclusive, never reported. Non-trivial: the case contains a self re-publication or >= 3 operations and nothing was inconclusive; distinct by case.",
 		Assumptions: []string{"gossipsub delivery on loopback; ordering across different senders is not assumed", "missing deliveries are not asserted here (the direct path in TestC09_Direct decides 'delivered iff' exactly)"},
 	}, genCase, runCase(t))
 }
